@@ -23,7 +23,8 @@ def plan(tier):
         specs = [(2, [("dense", 1, 5)], MRTS_Q), (3, [("dense", 1, 3)], MRTS_Q[::2]),
                  (2, [("bounded", 3, 6, 7)], [0.0] + MRTS_Q[4:])]
     else:
-        specs = [(2, [("dense", 1, 7), ("bounded", 3, 8, 10)], MRTS_T), (3, [("dense", 1, 4)], MRTS_Q)]
+        specs = [(2, [("dense", 1, 6)], MRTS_T), (2, [("bounded", 3, 7, 9)], [0.0] + MRTS_T[6:]),
+                 (3, [("dense", 1, 4)], MRTS_Q[::2])]
     tasks, descs = [], []
     mixed_ks = (8,) if tier == "quick" else (8, 10, 11)
     for be in ("py", "pyx"):
